@@ -114,7 +114,9 @@ func (r ResolveResult) Targets(network string) iter.Seq[Target] {
 			}
 			alpn := h.ALPN
 			if !h.NoDefaultALPN {
-				alpn = append(alpn, "http/1.1")
+				// Never append in place: the backing array belongs to the
+				// (cached, shared) HTTPS record.
+				alpn = append(slices.Clip(alpn), "http/1.1")
 			}
 			if h.Target != "" {
 				for _, a := range r.Additional[h.Target] {
